@@ -468,6 +468,10 @@ class IArr(IdxND):
 
     __rmul__ = __mul__
 
+    def __abs__(self):
+        from vcgen import kidx
+        return kidx._abs(self)
+
     def __pow__(self, k):
         if k == 2:
             return self * self
@@ -502,6 +506,9 @@ class IArr(IdxND):
 
     # ---- comparisons: masks are 0/1 arrays
     def _cmp(self, o, op):
+        if self.ndim == 0 and not (isinstance(o, IArr) and o.ndim > 0):
+            rhs = ents_expr(o.fn()) if isinstance(o, IArr) else SScal.lift(o).re
+            return SBool(op(ents_expr(self.fn()), rhs))          # comparison of two scalars is a Boolean
         if isinstance(o, IArr):
             shape, fa, fb, _ = self._bcast(o)
             return IArr(shape, lambda *ix: [Ent([], z3.If(op(ents_expr(fa(*ix)), ents_expr(fb(*ix))), z3.RealVal(1), z3.RealVal(0)))], np.bool_)
@@ -564,6 +571,15 @@ class IArr(IdxND):
     def __matmul__(self, o):
         if hasattr(o, "_rmatmat") and not isinstance(o, IArr):
             return NotImplemented
+        if isinstance(o, IArr) and self.ndim == 1 and o.ndim == 1:
+            if not bool(dim_eq(self.shape[0], o.shape[0])):
+                raise ValueError(f"matmul: dimension mismatch {self.shape} @ {o.shape}")
+            kk = self.shape[0]
+
+            def fn0():
+                v = fresh_idx("m")
+                return eliminate(v, 0, kk, [Ent([], _mulv(ents_expr(self.fn(v)), ents_expr(o.fn(v))))])
+            return IArr((), fn0, np.promote_types(self.dtype, o.dtype))
         if isinstance(o, IArr) and self.ndim == 3 and o.ndim == 3:
             if not bool(dim_eq(self.shape[0], o.shape[0])) or not bool(dim_eq(self.shape[2], o.shape[1])):
                 raise ValueError(f"matmul: dimension mismatch {self.shape} @ {o.shape}")
